@@ -91,14 +91,15 @@ def wcheckStep (u : Unit) (ws : List String) : Unit × List String :=
     | some (some e) => (u, [s!"refuse {e}"])
   | _ => (u, ["bad-op"])
 
-/-- mode `connect`: `tcp <sockErr> <r>` | `pipe <argErr> <sockErr> <r>` | `io <soError>` | `close` | `destroy` -/
+/-- mode `connect`: `bind <r>` | `tcp <sockErr> <r>` | `pipe <argErr> <sockErr> <r>` | `io <soError>` | `close` | `destroy` -/
 def connectStep (c : Conn) (ws : List String) : Conn × List String :=
   let cbsOf (old new : Conn) := (new.cbs.drop old.cbs.length).map fun (r, st) => s!"cb {r} {st}"
   match ws with
   | [] => (c, [])
   | ["reset"] => ({}, ["reset"])
-  | ["tcp", e, r] => let (c', rc) := tcpConnect c (int! e) (int! r); (c', [s!"ret {rc}"])
-  | ["pipe", a, e, r] => let (c', rc) := pipeConnect c (int! a) (int! e) (int! r); (c', [s!"ret {rc}"])
+  | ["bind", r] => let (c', rc) := tcpBind c (int! r); (c', [s!"bind {rc}"])
+  | ["tcp", e, r] => let (c', rc) := tcpConnect c (int! e) (int! r); (c', [s!"ret {rc} connects={c'.connectCalls}"])
+  | ["pipe", a, e, r] => let (c', rc) := pipeConnect c (int! a) (int! e) (int! r); (c', [s!"ret {rc} connects={c'.connectCalls}"])
   | ["io", so] => let c' := streamConnect c (int! so); (c', cbsOf c c')
   | ["close"] => (connClose c, [])
   | ["destroy"] => let c' := connDestroy c; (c', cbsOf c c')
